@@ -19,6 +19,13 @@ import traceback
 
 
 def _reexec_if_needed():
+    if "--shard" not in sys.argv and os.environ.get("VF_VIRTUAL_MONOTONIC"):
+        # a per-check child setting (CHILD_ENV) that leaked into the caller's
+        # environment: the parent's watchdog must run on the real clock
+        env = {k: v for k, v in os.environ.items() if k != "VF_VIRTUAL_MONOTONIC"}
+        env["PYTHONHASHSEED"] = "0"
+        env["PYTHONDONTWRITEBYTECODE"] = "1"
+        os.execve(sys.executable, [sys.executable, "-m", "vf.check"] + sys.argv[1:], env)
     if os.environ.get("PYTHONHASHSEED") != "0":
         env = dict(os.environ)
         env["PYTHONHASHSEED"] = "0"
